@@ -1714,7 +1714,13 @@ class BaseImage(metaclass=ImageMeta):
                         "an animation"
                     )
 
-            return renderer(self._get_image(), *args, **kwargs)
+            image = self._get_image()
+            try:
+                return renderer(image, *args, **kwargs)
+            except BaseException:
+                # The renderer might not have got to closing the image
+                self._close_image(image)
+                raise
 
         finally:
             if isinstance(_size, Size):
